@@ -127,6 +127,38 @@ Proof.
   exfalso. exact (H e He Fe).
 Qed.
 
+(* the Err index is the insertion point *)
+Lemma bsearch_err_partition i : up_closed_gt -> down_closed_lt ->
+  binary_search_by f l = Ok (inr i) ->
+  i <= length l /\
+  (forall j e, j < i -> nth_error l j = Some e -> f e = Lt) /\
+  (forall j e, i <= j -> nth_error l j = Some e -> f e = Gt).
+Proof.
+  intros Hup Hdown. unfold binary_search_by. destruct (Nat.eqb (length l) 0) eqn:E.
+  - apply Nat.eqb_eq in E. intros H. apply Ok_inj in H. injection H as <-.
+    destruct l; [|discriminate]. repeat split; [lia | intros; lia |].
+    intros j e _ Hj. destruct j; discriminate.
+  - apply Nat.eqb_neq in E.
+    destruct (bs_loop_ok (length l) 0 (length l)) as [b [Hb Hr]]; try lia.
+    rewrite Hb. cbn [obind].
+    destruct (bs_loop_inv Hup (length l) 0 (length l) b) as [HL HR]; try lia; try assumption.
+    { now left. }
+    { intros k e Hk Hke. assert (nth_error l k <> None) by congruence.
+      apply nth_error_Some in H. lia. }
+    destruct (nth_error_some_lt b) as [e He]; [lia|]. rewrite He.
+    destruct (f e) eqn:Fe; intros H; apply Ok_inj in H; try discriminate; injection H as <-.
+    + repeat split; [lia | |].
+      * intros j ej Hj Hej. assert (C : j = b \/ j < b) by lia. destruct C as [->|C].
+        -- congruence.
+        -- eapply Hdown; [exact C | exact Hej | exact He | exact Fe].
+      * intros j ej Hj Hej. apply (HR j ej); [lia | exact Hej].
+    + destruct HL as [->|[e' [He' Fe']]]; [|congruence].
+      repeat split; [lia | intros; lia |].
+      intros j ej Hj Hej. assert (C : j = 0 \/ 0 < j) by lia. destruct C as [->|C].
+      * congruence.
+      * eapply Hup; [exact C | exact He | exact Hej | exact Fe].
+Qed.
+
 End BinarySearch.
 
 (* ---- sortedness gives the monotonicity the search needs ---------------------------------------- *)
